@@ -92,7 +92,12 @@ TOPS = ["qt0", "qt1", "qt2"]
 SCRIPTS = ["scripts/qs0", "scripts/qd1/qs1", "scripts/qd1/qd2/qs2", "scripts/qd3/qs3"]
 CFG_VALUES = [{}, {"k": 1}, {"k": 2}, {"k": 3}]
 TASK_T = [0, 0, 0, 2.0, 6.0, 20.0]
+# coarse grouping of the cause of a change (signature key "change")
+CHANGE_GROUP = {"delete": "removed", "hash": "removed", "config": "config", "unreadable": "removed",
+                "shadow": "replaced", "replace": "replaced", "modify": "edited", "touch": "edited",
+                "create": "created", "named": "named", "star": "star"}
 AUTOLOAD_KINDS = ("top", "script", "app_file", "app_pkg_init")
+STEER_KINDS = ("top", "script", "app_file")  # files nothing depends on and that belong to no package
 PKG_KINDS = ("app_pkg_init", "app_pkg_sibling", "module_pkg_init", "module_pkg_sibling")
 
 
@@ -634,8 +639,12 @@ def gen(rng: random.Random, tier: str) -> dict:
             mode = None
         elif roll < 0.85:
             names = sorted(found) or [None]
-            auto = [c for c in names if c and found[c]["autoload"]]
-            mode = rng.choice(auto if (auto and (steer or rng.random() < 0.5)) else names)
+            plain = [c for c in names if c and found[c]["kind"] in STEER_KINDS]
+            if steer:
+                plain = [c for c in plain if not disk.files[found[c]["path"]]["imports"]]
+                mode = rng.choice(plain) if plain else None
+            else:
+                mode = rng.choice(plain if (plain and rng.random() < 0.3) else names)
         else:
             mode = "*"
         op = {"kind": "reload", "mode": mode, "dt": rng.choice([0.0, 0.25, 0.5, 1.0, 2.0])}
@@ -684,8 +693,9 @@ def _gen_edit(rng: random.Random, disk: Disk, next_uid: int, steer: bool) -> dic
     if roll < 0.63 and paths:
         pool = visible or paths
         if steer:
-            auto = [p for p in pool if classify(p)["kind"] in AUTOLOAD_KINDS]
-            pool = auto or pool
+            pool = [p for p in pool if classify(p)["kind"] in STEER_KINDS]
+            if not pool:
+                return None
         return {"kind": "delete", "path": rng.choice(pool)}
     if roll < 0.79 and paths:
         hidden_now = sorted({_hidden_unit(p) for p in paths if classify(p)["hidden"]})
@@ -699,7 +709,8 @@ def _gen_edit(rng: random.Random, disk: Disk, next_uid: int, steer: bool) -> dic
                 units.add("/".join(parts[:k]))
         units = sorted(units)
         if steer:
-            units = [u for u in units if not u.endswith(".py") or classify(u)["kind"] in AUTOLOAD_KINDS] or units
+            units = [u for u in units if (classify(u)["kind"] in STEER_KINDS if u.endswith(".py")
+                                          else not u.startswith(PREFIX + "modules/"))]
         if not units:
             return None
         return {"kind": "hash", "target": rng.choice(units), "on": True}
@@ -839,6 +850,10 @@ class Judge:
         self.n_reloads = 0
         self.n_exec = 0
         self.n_dontcare = 0
+        self.last_reload_vt = 0.0
+        self.reload_times: list = []
+        self.diverged = False   # a context with an undocumented name exists: outside the documented state space
+        self.named = None
 
     def viol(self, cls: str, sig: dict, detail: str) -> None:
         self.violations.append({"class": cls, "sig": sig, "detail": detail, "t": self.w.vts()})
@@ -907,18 +922,21 @@ class Judge:
                     importers = [c for c, e in loaded.items() if mod in e["imports"] and root_of(c) != root_of(mod)]
                     if importers and all(loaded[c]["kind"] == "app_pkg_sibling" for c in importers):
                         w.probe("module_only_imported_by_app_sibling")
-        for ctx, ent in loaded.items():
-            if ent["kind"].endswith("_pkg_sibling") and any(
-                    root_of(t) == root_of(ctx) and t != root_of(ctx) for t in ent["wanted"]):
-                w.probe("sibling_imports_sibling")
-            if any(t not in exp["found"] and t not in loaded for t in ent["wanted"]):
-                w.probe("import_of_absent_module")
+        if any(ent["kind"].endswith("_pkg_sibling") and any(root_of(t) == root_of(ctx) and t != root_of(ctx)
+                                                            for t in ent["wanted"]) for ctx, ent in loaded.items()):
+            w.probe("sibling_imports_sibling")
+        if any(t not in exp["found"] and t not in loaded for ent in loaded.values() for t in ent["wanted"]):
+            w.probe("import_of_absent_module")
 
     # ---------------------------------------------------------------- one reload (or the start-up load)
     def after_load(self, mode, label: str, t_start: float) -> None:
         w = self.w
         disk = self.disk
+        if self.diverged:
+            self.take_marks()
+            return
         self.n_reloads += 1
+        self.named = mode if label == "name" else None
         exp = expectation(self.loaded, disk, mode)
         self._probes(exp, mode, label)
         found = exp["found"]
@@ -941,8 +959,9 @@ class Judge:
         def reason_sig(ctx, table):
             r = table.get(ctx)
             if r is None:
-                return {"mode": label}
-            return {"mode": label, "op": r["op"], "place": r["place"], "via": r["via"]}
+                return {"mode": label, "op": "imported", "change": "imported"}
+            return {"mode": label, "op": r["op"], "place": r["place"], "via": r["via"],
+                    "change": CHANGE_GROUP.get(r["op"], r["op"])}
 
         # ---- (b) what was executed
         executed: dict[str, list] = {}
@@ -962,6 +981,7 @@ class Judge:
             if info["ctx"] != name:
                 self.viol("C10.context_name", {"place": info["kind"]},
                           f"{path} was executed under context name {name}; the documented name is {info['ctx']}")
+                self.diverged = True
                 continue
             d = found.get(name)
             cur = disk.files[d["path"]] if d else None
@@ -1057,7 +1077,8 @@ class Judge:
                 if old is not None and old in self.inst:
                     self.inst[old]["until"] = t_start
                 self.cur_inst[ctx] = inst
-                via = (must_changed.get(ctx) or may_changed.get(ctx) or {}).get("via", "unexpected")
+                via = (must_changed.get(ctx) or may_changed.get(ctx) or {}).get(
+                    "via", "new_import" if ctx in may_exec else "unexpected")
                 self.inst[inst] = {"ctx": ctx, "uid": uid, "gen": gen, "since": w.loop.vt, "until": None,
                                    "probes": 0, "loaded_in": label, "via": via}
             elif ctx in before:
@@ -1074,7 +1095,9 @@ class Judge:
 
     # ---------------------------------------------------------------- probe event
     def after_probe(self, label: str) -> None:
-        w = self.w
+        if self.diverged:
+            self.take_marks()
+            return
         marks = [m for m in self.take_marks() if m["args"] and m["args"][0] == "probe"]
         by_inst: dict[int, list] = {}
         for m in marks:
@@ -1107,13 +1130,10 @@ class Judge:
             rec = self.inst[inst]
             self.dead_reported.add(inst)
             fresh = rec["since"] >= self.last_reload_vt
-            self.viol("C10.trigger_dead",
-                      {"subsystem": self.sub, "mode": label, "ctx": ("executed_via_" + rec["via"]) if fresh else
-                       "untouched"},
+            role = "untouched" if not fresh else "named" if ctx == self.named else "additional"
+            self.viol("C10.trigger_dead", {"subsystem": self.sub, "mode": label, "ctx": role},
                       f"probe after {label} reload: trigger of context {ctx} ({rec['uid']} gen {rec['gen']}, loaded by "
-                      f"{rec['loaded_in']} reload) did not fire")
-
-    last_reload_vt = 0.0
+                      f"{rec['loaded_in']} reload, reached via {rec['via']}) did not fire")
 
     # ---------------------------------------------------------------- tasks
     def final_tasks(self) -> None:
@@ -1140,7 +1160,6 @@ class Judge:
                           f"finished although its context was left untouched until it was due "
                           f"({len(crossed)} reloads in between)")
 
-    reload_times: list = []
 
 
 def classify_ctx_known(name: str, found: dict, before: dict) -> bool:
@@ -1166,7 +1185,6 @@ def run(scn: dict) -> dict:
     cfg = dict(scn["cfg"])
     w = C10World(cfg, disk.initial_files())
     judge = Judge(w, disk)
-    judge.reload_times = []
     max_task = max([f.get("task", 0) for f in spec["files"]]
                    + [op["file"].get("task", 0) for op in scn["ops"] if op["kind"] == "create"] + [0])
 
